@@ -520,6 +520,13 @@ class SmtLibParser(object):
         if what == "const":
             assert ty.is_array_type(), "(as const x) is supported only for array constants"
             def res(expr):
+                elem_type = cast(_ArrayType, ty).elem_type
+                if elem_type.is_real_type() and expr.is_int_constant():
+                    # As elsewhere, integer constants are read as reals
+                    expr = self.env.formula_manager.Real(expr.constant_value())
+                if self.get_type(expr) != elem_type:
+                    raise PysmtTypeError("The value of (as const %s) must "
+                                         "have type %s" % (ty, elem_type))
                 return self.env.formula_manager.Array(cast(_ArrayType, ty).index_type, expr)
             def handler():
                 return res
